@@ -371,6 +371,62 @@ pub fn check(rep: &Reporter) {
 		local.case_unique(&format!("subscribe:{class}"));
 	});
 
+	// ---- WebSocket unsubscribe replies: the reply echoes the request id, so its size is the caller's choice.
+	// Both exits of the unsubscribe handler: parameter that is no subscription id, and a well-formed unknown id.
+	const UNSUB_PARAMS: [&str; 6] = ["[13.99]", "[]", r#"[{"not":"an id"}]"#, r#"["nope"]"#, "[7]", "[null]"];
+	let uwork: Vec<(u32, i64, usize)> =
+		lims.iter().filter(|l| **l <= 600).flat_map(|l| (-2i64..=2).flat_map(move |d| (0..UNSUB_PARAMS.len()).map(move |p| (*l, d, p)))).collect();
+	par_for(rep, uwork.len(), 8, srv::rt, |i, rt, local| {
+		let (l, delta, p) = uwork[i];
+		let params = UNSUB_PARAMS[p];
+		let _e = rt.enter();
+		let req_of = |w: usize| format!(r#"{{"jsonrpc":"2.0","id":"{}","method":"unsub","params":{params}}}"#, "i".repeat(w));
+		let probe = srv::ws_server(srv::cfg_builder().build());
+		let o = rt.block_on(srvref::ws_roundtrip(&probe, req_of(1).as_bytes()));
+		let Some(base) = o.replies.first().map(|r| r.len() - 1) else {
+			rep.machinery_error("unsubscribe probe got no reply".into());
+			return;
+		};
+		let width = l as i64 + delta - base as i64;
+		if width < 1 {
+			return;
+		}
+		let width = width as usize;
+		let unl = rt.block_on(srvref::ws_roundtrip(&probe, req_of(width).as_bytes()));
+		let ws = srv::ws_server(srv::cfg_builder().max_response_body_size(l).build());
+		let o = rt.block_on(srvref::ws_roundtrip(&ws, req_of(width).as_bytes()));
+		let resp_len = base + width;
+		let case = json!({"engine":"ENUM","part":"unsubscribe","limit": l, "request_id_width": width, "params": params, "response_len": resp_len,
+			"replies": o.replies.iter().map(|r| String::from_utf8_lossy(r).to_string()).collect::<Vec<_>>()});
+		if o.replies.len() != 1 || unl.replies.len() != 1 {
+			rep.violation("unsubscribe:reply-count", &format!("L={l}: {} replies to an unsubscribe call", o.replies.len()), case.clone());
+			return;
+		}
+		if unl.replies[0].len() != resp_len {
+			rep.machinery_error(format!("unsubscribe leg: reply length {} != predicted {resp_len}", unl.replies[0].len()));
+			return;
+		}
+		let got = &o.replies[0];
+		let v: Value = serde_json::from_slice(got).unwrap_or(Value::Null);
+		let class;
+		if resp_len <= l as usize {
+			class = "fits";
+			if *got != unl.replies[0] {
+				rep.violation(&format!("unsubscribe:fitting-response-changed:len=limit{delta:+}"), &format!("L={l}: a {resp_len}-byte unsubscribe reply (≤ L) was answered {:?}", String::from_utf8_lossy(got)), case.clone());
+			}
+		} else {
+			class = "too-big";
+			if v["error"]["code"] != -32008 || v["id"].as_str().map(|s| s.len()) != Some(width) {
+				rep.violation(
+					&format!("unsubscribe:oversized-response-sent:params={params}:len=limit{delta:+}"),
+					&format!("L={l}: the unsubscribe reply has {resp_len} bytes (> L) but the server sent {:?} ({} bytes)", String::from_utf8_lossy(&got[..got.len().min(80)]), got.len()),
+					case.clone(),
+				);
+			}
+		}
+		local.case_unique(&format!("unsubscribe:{class}:{}", if p < 3 { "unparsable-id" } else { "unknown-id" }));
+	});
+
 	// ---- PURE: MethodResponse::response and BatchResponseBuilder, full 1-step sweep
 	let pure_l: Vec<usize> = (20..=300).collect();
 	par_for(rep, pure_l.len(), 4, || (), |i, _, local| {
